@@ -122,3 +122,13 @@ Definition millis_for_move (white_to_move : bool) (a : goargs) : result Z :=
 Definition allotted_ns (white_to_move : bool) (a : goargs) : result Z :=
   if negb (ga_movetime a =? -1) then Ok (int64 (int64 (ga_movetime a - antiflagMillis) * 1000000))
   else do m <- millis_for_move white_to_move a; Ok (int64 (1000000 * m)).
+
+(* ---------- score formatting (formatScore, closeToMate, fullMovesToMate, pliesToMate) ---------- *)
+Inductive shown_score := ShMate (n : Z) | ShCp (v : Z).
+Definition close_to_mate (score : Z) : bool := Z.abs score >? ScoreCloseToMate.
+Definition full_moves_to_mate (score : Z) : Z :=
+  let sign := if score <? 0 then -1 else 1 in
+  let plies := - LostScore - Z.abs score in
+  Z.quot (sign * (plies + 1)) 2.
+Definition format_score (score : Z) : shown_score :=
+  if close_to_mate score then ShMate (full_moves_to_mate score) else ShCp score.
